@@ -421,6 +421,10 @@ func c19(r *Run) {
 		dels := findEffects(ul, "call (ago/database.*).Delete(*")
 		var dk []string
 		for _, d := range dels {
+			if d.Inner != nil {
+				dk = append(dk, d.Str) // lifted out of a helper: the rendered effect carries the substituted key
+				continue
+			}
 			dk = append(dk, term(callArgs(d.Ins.(ssa.CallInstruction))[1]))
 		}
 		j := strings.Join(dk, " ; ")
